@@ -99,6 +99,19 @@ def check(tier, seed, replay=None):
         if r.violated:
             raise ToolError("the specification itself violates %s (MC_Expr)" % r.violated)
         chk.add_tlc(r, "MC_Expr (Total, WrongType, Laws: every application of 70 functions to every tuple of a 21-value universe)")
+        # the calendar behind format_time / parse_time: Civil inverts the declarative day number, successor dates, week days, week counts, ISO weeks,
+        # Parse(Format(t, f), f) = t - on every day of ten blocks of days (thorough: blocks of 20 000 days, 200 000 days in all)
+        if quick:
+            r = tlc("MC_Time", "MC_Time.cfg", workers=8, timeout=1800)
+        else:
+            cfgp = os.path.join(WORK, "MC_Time-thorough-%d.cfg" % os.getpid())
+            open(cfgp, "w").write(open(os.path.join(SPEC, "MC_Time.cfg")).read().replace("BlockLen = 1100", "BlockLen = 20000"))
+            r = tlc("MC_Time", cfgp, workers=14, timeout=3600)
+            os.remove(cfgp)
+        tlc_ok(r, "MC_Time")
+        if r.violated:
+            raise ToolError("the specification itself violates %s (MC_Time)" % r.violated)
+        chk.add_tlc(r, "MC_Time (Inverse, Successor, Weekdays, WeekCount, IsoWeeks, RoundTrip on every day of ten blocks of days between the years 1 and 9999)")
         # (i) the documentation pins the specification
         docs = EL.doc_records(table)
         for i, r in enumerate(docs):
@@ -195,6 +208,50 @@ def check(tier, seed, replay=None):
                 enc_ = enc_ + rnd.choice(["=", "A", "==", "\n"])
             txt = "(%s .s)" % rnd.choice(["base63_decode", "base64"])
             items.append((X.strip(EP.parse(txt, table)), ("obj", [(X.cps("s"), ("str", X.cps(enc_)))]), [], [], txt))
+        # (viii) times: format_time on whole seconds (and positive dyadic fractions) of the years 1..9999 with formats drawn from the specifier table of
+        #        the page the documentation points to (Time.tla gives them their meaning), and parse_time on texts that are the formatting of a time
+        #        under a format of fixed-width fields that names a date and a time of day
+        import datetime as DT
+        SPECS = ["%Y", "%C", "%y", "%q", "%m", "%b", "%B", "%h", "%d", "%e", "%a", "%A", "%w", "%u", "%U", "%W", "%G", "%g", "%V", "%j", "%D", "%x", "%F", "%v",
+                 "%H", "%k", "%I", "%l", "%P", "%p", "%M", "%S", "%R", "%T", "%X", "%r", "%z", "%:z", "%::z", "%:::z", "%c", "%+", "%s", "%t", "%n", "%%",
+                 "%.f", "%.3f", "%.6f", "%.9f", "%3f", "%6f", "%9f", "%-d", "%_m", "%0e", "%-j", "%_H", "%-I", "%_S", "%-y", "%0k", "%-U", "%_V", "%-Y", "%_Y"]
+        LITS = ["-", "/", ":", " ", "T", ".", ",", "é", "at ", "[", "]", "", ""]
+        EDGE = [0, 1, -1, 59, 60, 86399, 86400, -86400, -86401, 951782400, 951868799, 951868800, 68169600, 2**31 - 1, 2**31, -(2**31), -(2**31) - 1, 4102444800, 4107542399,
+                1701611515, -62135596800, -62135596799, 253402300799, 253402300800, -62135596801, 32503680000, -2208988800, 1582934400, 1709251199, 12219292800 - 1,
+                -12219292800, 1e3, 946684799, 946684800, 978307199, 1230768000, 1104537600 - 1]
+        for i in range(500 if quick else 20000):
+            k = rnd.random()
+            secs = int(rnd.choice(EDGE)) if k < 0.3 else rnd.randrange(-2**31, 2**32) if k < 0.7 else rnd.randrange(-62135596800, 253402300800)
+            num = str(secs)
+            if rnd.random() < 0.15 and secs >= 0:
+                num = "%d.%s" % (secs, rnd.choice(["5", "25", "75", "125", "0", "50"]))
+            fmt = "".join(rnd.choice(LITS) + rnd.choice(SPECS) for _ in range(rnd.choice([1, 1, 2, 3, 5]))) + rnd.choice(LITS)
+            if rnd.random() < 0.05:
+                fmt += rnd.choice(["%Q", "%", "%-a", "%10d", "%E", "%:y"])          # not a format: no meaning (Unspec), must not fail
+            txt = "(format_time %s %s)" % (num, json.dumps(fmt, ensure_ascii=False))
+            items.append((X.strip(EP.parse(txt, table)), ("null",), [], [], txt))
+        PFIELDS = [["%Y", "%m", "%d"], ["%Y", "%j"], ["%Y", "%b", "%e"], ["%Y", "%h", "%d"], ["%d", "%m", "%Y"]]
+        for i in range(300 if quick else 10000):
+            k = rnd.random()
+            secs = int(rnd.choice(EDGE)) if k < 0.3 else rnd.randrange(-2**31, 2**32) if k < 0.7 else rnd.randrange(-62135596800, 253402300800)
+            secs = min(max(secs, -62135596800), 253402300799)
+            t = DT.datetime(1970, 1, 1) + DT.timedelta(seconds=secs)
+            fields = list(rnd.choice(PFIELDS)) + ["%H", "%M", "%S"]
+            if rnd.random() < 0.5:
+                rnd.shuffle(fields)
+            seps = [rnd.choice(["-", "/", ":", " ", "T", "", ".", ", "]) for _ in fields]
+            fmt = "".join(f + q for f, q in zip(fields, seps))
+            val = {"%Y": "%04d" % t.year, "%m": "%02d" % t.month, "%d": "%02d" % t.day, "%j": "%03d" % t.timetuple().tm_yday, "%e": "%2d" % t.day,
+                   "%b": t.strftime("%b"), "%h": t.strftime("%b"), "%H": "%02d" % t.hour, "%M": "%02d" % t.minute, "%S": "%02d" % t.second}
+            text = "".join(val[f] + q for f, q in zip(fields, seps))
+            if rnd.random() < 0.12:
+                j = rnd.randrange(len(text)) if text else 0
+                text = text[:j] + rnd.choice(["x", "", "9", " "]) + text[j + 1:]       # a text that is not the formatting of a time: no meaning here (Unspec)
+            txt = "(parse_time %s %s)" % (json.dumps(text), json.dumps(fmt))
+            items.append((X.strip(EP.parse(txt, table)), ("null",), [], [], txt))
+            if rnd.random() < 0.3:
+                txt = "(format_time (parse_time %s %s) %s)" % (json.dumps(text), json.dumps(fmt), json.dumps(fmt))
+                items.append((X.strip(EP.parse(txt, table)), ("null",), [], [], txt))
     cases = []
     for i, (ast, inp, vs, ms, txt) in enumerate(items):
         c = EL.select_case(txt, inp, vs, ms)
